@@ -42,6 +42,16 @@ type State struct {
 }
 
 func (s *State) String() string {
+	if s.M > 64 {
+		// large cores are written sparsely: index:instruction for the non-empty cells
+		var parts []string
+		for i, x := range s.Core {
+			if x != (g.Instruction{}) {
+				parts = append(parts, fmt.Sprintf("%d:%s", i, hx.InsStr(x)))
+			}
+		}
+		return fmt.Sprintf("M=%d R=%d W=%d P=%d PC=%d core=@{%s}", s.M, s.R, s.W, s.P, s.PC, strings.Join(parts, ";"))
+	}
 	return fmt.Sprintf("M=%d R=%d W=%d P=%d PC=%d core=%s", s.M, s.R, s.W, s.P, s.PC, hx.CoreStr(s.Core))
 }
 
@@ -54,6 +64,26 @@ func ParseState(w string) (*State, error) {
 	}
 	if _, err := fmt.Sscanf(w[:i], "M=%d R=%d W=%d P=%d PC=%d", &st.M, &st.R, &st.W, &st.P, &st.PC); err != nil {
 		return nil, err
+	}
+	if body := strings.TrimSpace(w[i+5:]); strings.HasPrefix(body, "@{") {
+		st.Core = make([]g.Instruction, st.M)
+		body = strings.TrimSuffix(strings.TrimPrefix(body, "@{"), "}")
+		for _, part := range strings.Split(body, ";") {
+			if part == "" {
+				continue
+			}
+			j := strings.Index(part, ":")
+			var idx uint64
+			if _, err := fmt.Sscanf(part[:j], "%d", &idx); err != nil || idx >= st.M {
+				return nil, fmt.Errorf("bad sparse cell %q", part)
+			}
+			ins, err := hx.ParseIns(part[j+1:])
+			if err != nil {
+				return nil, err
+			}
+			st.Core[idx] = ins
+		}
+		return st, nil
 	}
 	c, err := hx.ParseCore(w[i+5:])
 	if err != nil {
@@ -191,7 +221,7 @@ func (c *Checker) Check(st *State) {
 		}
 		if !ok {
 			if rep.Hit("C01", "core") {
-				rep.Add("C01", "core", st.String(), fmt.Sprintf("gmars=%s ref=%s", hx.CoreStr(o.Core), hx.CoreStr(rc)))
+				rep.Add("C01", "core", st.String(), coreDiff(o.Core, rc))
 			}
 		}
 		qok := len(o.Queue) == nq
@@ -565,4 +595,18 @@ func (c *Checker) check15(st *State, o *Obs, out *ref.StepOut, died bool) {
 			}
 		}
 	}
+}
+
+// coreDiff renders the cells in which two cores differ.
+func coreDiff(got, want []g.Instruction) string {
+	var parts []string
+	for i := range got {
+		if got[i] != want[i] {
+			parts = append(parts, fmt.Sprintf("cell %d: gmars %s, reference %s", i, hx.InsStr(got[i]), hx.InsStr(want[i])))
+			if len(parts) >= 6 {
+				break
+			}
+		}
+	}
+	return strings.Join(parts, "; ")
 }
